@@ -64,6 +64,7 @@ CHECKS['C05'] = dict(
         U('inpkg', 'TestVerifC05_AlgoRelations', q(96000, 16), q(1600000, 16, cap=1800), pkg='algo'),
         U('inpkg', 'FuzzVerifC05_Relations', None, q(fuzz=90), pkg='algo'),
         U('inpkg', 'TestVerifC05_SlabSequence', q(16000, 8), q(320000, 16, cap=1800), pkg='algo'),
+        U('inpkg', 'TestVerifC05_SlabLongLines', q(1600, 16), q(32000, 16, cap=1500), pkg='algo'),
         U('inpkg', 'TestVerifC05_SchemeHistory', q(8000, 4), q(160000, 8), pkg='algo'),
         U('inpkg', 'TestVerifC05_ItemCaches', q(32000, 16), q(640000, 16, cap=1500), pkg='src'),
         U('inpkg', 'TestVerifC05_ChunkCacheHistory', q(3200, 16), q(64000, 16, cap=1500), pkg='src'),
@@ -171,6 +172,7 @@ CHECKS['C11'] = dict(
         U('inpkg', 'FuzzVerifC11_Bytes', None, q(fuzz=120), pkg='src'),
         U('inpkg', 'FuzzVerifC11_Grammar', None, q(fuzz=90), pkg='src'),
         U('proc', 'TestVerifC11_ProcColours', q(320, 16, cap=900), q(6400, 16, cap=3000), needs_fzf=True),
+        U('lib', 'TestVerifC11_LibPrinted', q(16000, 16), q(320000, 16, cap=1500)),
     ])
 
 CHECKS['C12'] = dict(
@@ -234,6 +236,7 @@ CHECKS['C16'] = dict(
         U('inpkg', 'FuzzVerifC16_Grammar', None, q(fuzz=90), pkg='src'),
         U('inpkg', 'TestVerifC16_ListenAddress', q(2000, 1), q(20000, 1), pkg='src'),
         U('proc', 'TestVerifC16_ProcNonLocal', q(cap=300), q(cap=300), needs_fzf=True),
+        U('proc', 'TestVerifC16_ProcPaddedKey', q(48, 16, cap=600), q(480, 16, cap=1800), needs_fzf=True),
         U('proc', 'TestVerifC16_ProcUnsafeFilter', q(320, 16, cap=600), q(1600, 16, cap=2400), needs_fzf=True),
         U('proc', 'TestVerifC16_ProcLive', q(160, 16, cap=900), q(3200, 16, cap=3000), needs_fzf=True),
         U('proc', 'TestVerifC16_ProcPostEqualsBind', q(96, 16, cap=900), q(1600, 16, cap=3000), needs_fzf=True),
@@ -270,13 +273,14 @@ CHECKS['C13'] = dict(
     title='Loading and searching run concurrently without interfering',
     rule='(a) a loader goroutine appending 50-2500 items with generated yield points while 1-8 snapshots (with/without --tail) are taken and scanned (sorted) in 1-32 partitions with a shared cache, the number of matching lines (0-30 of 100) and their relevance varying from chunk to chunk: every snapshot is a contiguous frozen run of the input, '
          'its items never change, every search equals the sequential filter of its snapshot; (b) exhaustive: a superseding request injected (hook) after the k-th counted chunk for every k, lists of 1..6 (quick) / 1..12 (thorough) chunks, partitions {1,3,32}, 8 query pairs: '
-         'the superseded search publishes nothing, the published list is the filter of the superseding request; (c) EventBox hand-off with 1-3 producers; (d) the real loader (Reader.feed over scripted reads cutting records anywhere) filling the list while snapshots are taken and searched: snapshot contents equal the records and never change afterwards. Thorough tier runs (a)-(c) under the Go race detector. '
+         'the superseded search publishes nothing, the published list is the filter of the superseding request; (c) EventBox hand-off with 1-3 producers; (d) the real loader (Reader.feed over scripted reads cutting records anywhere) filling the list while snapshots are taken and searched: snapshot contents equal the records and never change afterwards; (e) process level: a growing stream read with --tail N while the query is switched back and forth: at quiescence the list is the filter of exactly the last N records. Thorough tier runs (a)-(c) under the Go race detector. '
          'non-trivial = a snapshot taken while the last chunk was partially filled (a); a cancellation strictly inside the scan (b)',
     assumptions=['goroutine interleavings are sampled by the Go scheduler; only cancellation points are enumerated (DESIGN.md section 6)'],
     units=[
         U('inpkg', 'TestVerifC13_CancellationPoints', q(1, 16, cap=600), q(1, 16, cap=2400, race=True), pkg='src'),
         U('inpkg', 'TestVerifC13_LoadWhileSearching', q(1600, 16, cap=600), q(16000, 16, cap=2400, race=True), pkg='src'),
         U('inpkg', 'TestVerifC13_FeedWhileSearching', q(3200, 16, cap=600), q(32000, 16, cap=2400, race=True), pkg='src'),
+        U('proc', 'TestVerifC13_ProcTailStream', q(192, 16, cap=900), q(3200, 16, cap=3000), needs_fzf=True),
         U('inpkg', 'TestVerifC13_EventBox', q(3200, 8), q(32000, 16, cap=1800, race=True), pkg='util'),
     ])
 
